@@ -145,3 +145,28 @@ func genC14(g *G, n int, out io.Writer) {
 		enc.Encode(c)
 	}
 }
+
+
+// withLexical appends source-map nodes giving a lexical entry to a random subset of the given node ids
+func withLexical(g *G, data string, ids []string, frac float64) string {
+	var nodes []map[string]any
+	if err := json.Unmarshal([]byte(data), &nodes); err != nil {
+		return data
+	}
+	var links []any
+	for k, id := range ids {
+		if !g.coin(frac) {
+			continue
+		}
+		lid := fmt.Sprintf("%slex/%d", NodeNS, k)
+		links = append(links, map[string]any{"@id": lid})
+		nodes = append(nodes, map[string]any{"@id": lid, SM + "element": id, SM + "value": fmt.Sprintf("[(%d,%d)-(%d,%d)]", k+1, g.n(40), k+2+g.n(5), g.n(40))})
+	}
+	if len(links) == 0 {
+		return data
+	}
+	nodes = append(nodes, map[string]any{"@id": NodeNS + "lexmap", "@type": []string{SM + "SourceMap"}, SM + "lexical": links})
+	nodes = append(nodes, map[string]any{"@id": NodeNS + "srcinfo", "@type": []string{DOC + "BaseUnitSourceInformation"}, DOC + "rootLocation": "file:///root.raml"})
+	b, _ := json.Marshal(nodes)
+	return string(b)
+}
